@@ -67,6 +67,7 @@ class Ctx(object):
         self.record = True
         self.busy_seen = 0
         self.busy_expired = 0
+        self.observations = []
 
     def thread_name(self):
         s = simsched.current_scheduler()
@@ -97,7 +98,7 @@ def _norm_params(params):
         return ['<unrepr>']
 
 
-def _intercept(conn, kind, sql=None, params=None, many=False):
+def _intercept(conn, kind, sql=None, params=None, many=False, cursor=None):
     """Common prologue.  Returns the event dict; raises an injected fault."""
     c = ctx
     thread = c.thread_name()
@@ -137,7 +138,7 @@ def _intercept(conn, kind, sql=None, params=None, many=False):
     if fk is not None:
         ev['fault'] = fk
         c.fired.append([g, thread, k, kind, fk])
-        _apply_fault_side_effect(conn, kind, fk)
+        _apply_fault_side_effect(conn, kind, fk, cursor)
         raise make_fault_exc(fk)
     s = simsched.current_scheduler()
     if s is not None and s.active:
@@ -145,11 +146,18 @@ def _intercept(conn, kind, sql=None, params=None, many=False):
     return ev
 
 
-def _apply_fault_side_effect(conn, kind, fk):
+def _apply_fault_side_effect(conn, kind, fk, cursor=None):
     """What really happens to the connection when the fault is delivered (see DESIGN 2.2)."""
     if conn is None:
         return
     real = conn._real
+    if cursor is not None and kind.startswith('fetch'):
+        # a failing sqlite3_step resets the statement (and drops its read lock): finish the
+        # real statement so that the injected failure leaves the same state behind
+        try:
+            cursor.fetchall()
+        except Exception:
+            pass
     if kind == 'close':
         # close that reports an error: the handle is gone anyway
         conn._do_close()
@@ -220,15 +228,15 @@ class ProxyCursor(object):
         return self
 
     def fetchone(self):
-        ev = _intercept(self._conn, 'fetchone')
+        ev = _intercept(self._conn, 'fetchone', cursor=self._real)
         return _call_real(ev, self._real.fetchone)
 
     def fetchmany(self, *a):
-        ev = _intercept(self._conn, 'fetchmany')
+        ev = _intercept(self._conn, 'fetchmany', cursor=self._real)
         return _call_real(ev, self._real.fetchmany, *a)
 
     def fetchall(self):
-        ev = _intercept(self._conn, 'fetchall')
+        ev = _intercept(self._conn, 'fetchall', cursor=self._real)
         return _call_real(ev, self._real.fetchall)
 
     def __iter__(self):
